@@ -29,10 +29,41 @@ Definition esh_update (ghat p : list Q) (z : Q) : list Q :=
 (* argument of ln_1p in the reported kinetic energy change: alpha + (1 - alpha) z^2 *)
 Definition esh_log_arg (alpha z : Q) : Q := alpha + (1 - alpha) * z * z.
 
+(* ------------------------------------------------------------------------------------------ *)
+(* the microcanonical leapfrog step                                                             *)
+(* ------------------------------------------------------------------------------------------ *)
+(* TransformedHamiltonian::leapfrog for KineticEnergyKind::Microcanonical:
+   first_velocity_halfstep / position_step / second_velocity_halfstep.
+     ghat_of x : unit gradient direction at position x,
+     z_of x    : z = exp(-|eps| sqrt(d) |grad| / (2 (d - 1))) at x (an input, like z above),
+     c         : eps * sqrt d.
+   A backward step uses -eps: the drift changes sign and exp(-delta) becomes exp(+delta) = 1 / z. *)
+Section MicroStep.
+  Variable ghat_of : list Q -> list Q.
+  Variable z_of : list Q -> Q.
+  Variable c : Q.
+
+  Definition micro_step (fwd : bool) (q p : list Q) : list Q * list Q :=
+    let zz x := if fwd then z_of x else / z_of x in
+    let p1 := esh_update (ghat_of q) p (zz q) in
+    let q1 := qmap2 (fun a b => a + (if fwd then c else - c) * b) q p1 in
+    let p2 := esh_update (ghat_of q1) p1 (zz q1) in (q1, p2).
+End MicroStep.
+
 Definition print_q (x : Q) : list Z := [Qnum (Qred x); Z.pos (Qden (Qred x))].
 Definition eval_esh (ghat p : list Q) (z : Q) : list (list Z) :=
   map print_q (esh_update ghat p z) ++ [print_q (esh_alpha ghat p)] ++
   [print_q (qdot (esh_update ghat p z) (esh_update ghat p z))].
+
+(* one forward/backward microcanonical step with its inputs spelled out: the unit gradient
+   directions and the z = exp(-+delta) values at the start and at the new position, and the signed
+   drift length c = +-eps*sqrt(d); evaluated on logged steps of the real integrator *)
+Definition micro_step_inputs (g0 g1 : list Q) (z0 z1 c : Q) (q p : list Q) : list Q * list Q :=
+  let p1 := esh_update g0 p z0 in
+  let q1 := qmap2 (fun a b => a + c * b) q p1 in
+  (q1, esh_update g1 p1 z1).
+Definition eval_micro (g0 g1 : list Q) (z0 z1 c : Q) (q p : list Q) : list (list (list Z)) :=
+  let r := micro_step_inputs g0 g1 z0 z1 c q p in [map print_q (fst r); map print_q (snd r)].
 
 (* ------------------------------------------------------------------------------------------ *)
 (* the step / halving loop                                                                      *)
